@@ -25,6 +25,40 @@ import (
 type point struct {
 	off  int
 	line int
+	edge bool // at the edge of a critical section: the statement takes a lock, or follows an unlock / wake-up / send
+}
+
+// selName returns the selector name of a call statement (x.Lock() -> "Lock", close(ch) -> "close").
+func selName(s ast.Stmt) string {
+	var c *ast.CallExpr
+	switch x := s.(type) {
+	case *ast.ExprStmt:
+		c, _ = x.X.(*ast.CallExpr)
+	case *ast.DeferStmt:
+		return ""
+	}
+	if c == nil {
+		return ""
+	}
+	switch f := c.Fun.(type) {
+	case *ast.SelectorExpr:
+		return f.Sel.Name
+	case *ast.Ident:
+		return f.Name
+	}
+	return ""
+}
+
+// releases: after this statement another goroutine may run on what it protected or announced
+func releases(s ast.Stmt) bool {
+	if _, ok := s.(*ast.SendStmt); ok {
+		return true
+	}
+	switch selName(s) {
+	case "Unlock", "RUnlock", "Done", "Broadcast", "Signal", "close":
+		return true
+	}
+	return false
 }
 
 func isVH(s ast.Stmt) bool {
@@ -46,6 +80,7 @@ func isVH(s ast.Stmt) bool {
 func collect(fset *token.FileSet, f *ast.File) []point {
 	var pts []point
 	add := func(list []ast.Stmt) {
+		var prev ast.Stmt
 		for _, s := range list {
 			if isVH(s) {
 				continue
@@ -55,7 +90,10 @@ func collect(fset *token.FileSet, f *ast.File) []point {
 				continue
 			}
 			p := fset.Position(s.Pos())
-			pts = append(pts, point{off: p.Offset, line: p.Line})
+			n := selName(s)
+			edge := n == "Lock" || n == "RLock" || n == "Wait" || (prev != nil && releases(prev))
+			pts = append(pts, point{off: p.Offset, line: p.Line, edge: edge})
+			prev = s
 		}
 	}
 	ast.Inspect(f, func(n ast.Node) bool {
@@ -98,7 +136,11 @@ func main() {
 		pts := collect(fset, f)
 		sort.Slice(pts, func(a, b int) bool { return pts[a].off > pts[b].off })
 		for _, p := range pts { // from the end, so that earlier offsets stay valid
-			ins := []byte(fmt.Sprintf("vh(%q); ", fmt.Sprintf("y:%s:%d.pre", name, p.line)))
+			tag := "y"
+			if p.edge {
+				tag = "y:e" // the delay exploration holds these first: windows between critical sections
+			}
+			ins := []byte(fmt.Sprintf("vh(%q); ", fmt.Sprintf("%s:%s:%d.pre", tag, name, p.line)))
 			data = append(data[:p.off], append(ins, data[p.off:]...)...)
 		}
 		total += len(pts)
